@@ -127,7 +127,7 @@ def _spec(draw, tier):
 
 
 def strategy(tier):
-    return gens.with_pre(_spec(tier))
+    return gens.with_pre(_spec(tier), prelude=False)    # trees contain SRAMs: memory contents survive a reset
 
 
 # ---------------------------------------------------------------------------------- building
